@@ -9,7 +9,8 @@ for d in sorted(glob.glob(os.path.join(V, "seeded", "*"))):
     summ = (m.get("summary") or "").replace("\n", " ").replace("|", "/")
     summ = summ[:170] + ("…" if len(summ) > 170 else "")
     cr = m["checks_run"]
-    rows.append("| %s | %s | %s | %s |" % (sid, m["property"], summ, ", ".join("%s: %s" % (c, "**caught**" if v == "VIOLATION" else v) for c, v in cr.items())))
+    rows.append("| %s | %s | %s | %s |" % (sid, m["property"], summ, ", ".join("%s: %s" % (c, "**caught**" if v == "VIOLATION" else v) for c, v in cr.items()) +
+                (" (when kept; *superseded* by a later repair of /repo, see meta.json)" if m.get("superseded") else "")))
 p = os.path.join(V, "DESIGN.md")
 s = open(p).read()
 i = s.index("| seed | property | change (author's summary, abridged) | our checks |")
